@@ -56,7 +56,10 @@ type span struct {
 	role   string // content | cmap | flate | objstm | xref | other
 }
 
-var numVals = []string{"0", "-1", "2147483648", "9223372036854775807"}
+// numVals: the four values of the property's quantifier plus 2^20, a number that passes every
+// "is it absurd?" clamp of a file format (a worksheet has 2^20 rows) and is still large enough to
+// blow the budgets when it is used unchecked as a loop bound or an allocation size.
+var numVals = []string{"0", "-1", "2147483648", "9223372036854775807", "1048576"}
 
 var subAlphabet = []byte{0x00, 0xFF, ' ', '\n', '<', '>', '(', ')', '[', '/', '0', '9'}
 
@@ -271,6 +274,34 @@ func structuralEdits(pi int, text []byte, pdf bool, nobj int, skip func(int) boo
 			add(i, i+1, string(partner), "delim", "swap"+string(c))
 		}
 		i++
+	}
+	return out
+}
+
+// nestEdits: class 8, "amplify nesting". No other class can make a structure deeper, and recursion
+// depth is what aborts a Go process for good (fatal stack overflow). Every array opener of a PDF part
+// is replaced by 4096 openers, every dictionary opener by 2048 x "<< /K "; every start tag of an
+// HTML/XHTML part by 3000 copies of itself.
+func nestEdits(pi int, text []byte, pdf bool, skip func(int) bool, groupOf func(int) string) []edit {
+	var out []edit
+	for i := 0; i < len(text); i++ {
+		if skip != nil && skip(i) {
+			continue
+		}
+		c := text[i]
+		switch {
+		case pdf && c == '[':
+			out = append(out, edit{part: pi, s: i, e: i + 1, repl: bytes.Repeat([]byte("["), 4096), class: "nest", val: "[x4096", group: groupOf(i)})
+		case pdf && c == '<' && i+1 < len(text) && text[i+1] == '<':
+			out = append(out, edit{part: pi, s: i, e: i + 2, repl: bytes.Repeat([]byte("<< /K "), 2048), class: "nest", val: "<<x2048", group: groupOf(i)})
+			i++
+		case !pdf && c == '<' && i+1 < len(text) && (text[i+1] >= 'a' && text[i+1] <= 'z' || text[i+1] >= 'A' && text[i+1] <= 'Z'):
+			j := bytes.IndexByte(text[i:], '>')
+			if j < 0 || j > 200 || text[i+j-1] == '/' {
+				continue
+			}
+			out = append(out, edit{part: pi, s: i, e: i + j + 1, repl: bytes.Repeat(text[i:i+j+1], 3000), class: "nest", val: "tagx3000", group: groupOf(i)})
+		}
 	}
 	return out
 }
